@@ -25,6 +25,8 @@ REPLAY_DIR = os.path.join(VERIF, "replay")
 KNOWN_FILE = os.path.join(VERIF, "known_findings.json")
 
 HARNESS_ERROR = 3  # reserved exit code: machinery failure (never a verdict)
+MAX_SUBPROCESS_REPLAYS = 6
+MAX_VIOLATION_LINES = 20
 
 
 def frac_str(f: Fraction) -> str:
@@ -43,7 +45,8 @@ class Issue:
         self.values = values or {}
 
     def signature(self) -> str:
-        d = re.sub(r"0x[0-9a-f]+", "0x?", self.detail)
+        d = re.sub(r"'[^']*'", "'..'", self.detail)
+        d = re.sub(r"0x[0-9a-f]+", "0x?", d)
         d = re.sub(r"-?\d+(\.\d+)?(e[-+]?\d+)?", "N", d)
         return "%s|%s|%s" % (self.op, self.kind, d[:80])
 
@@ -580,6 +583,7 @@ def finish(
     violations: List[Tuple[Dict, str]] = []
     known_hits: Dict[str, int] = {}
     not_reproduced = 0
+    n_sub = 0
     for sig, recs in sorted(groups.items()):
         entry = next((k for k in known if all(known_match(k, rec) for rec in recs[:5])), None)
         if entry is not None:
@@ -597,9 +601,11 @@ def finish(
             continue
         rec = rest[0]
         path = write_replay(prop, rec, modname)
-        if rec.get("preconfirmed"):
+        if rec.get("preconfirmed") or n_sub >= MAX_SUBPROCESS_REPLAYS:
+            # (already reproduced natively in-process by the worker; the fresh-interpreter replay is capped)
             violations.append((rec, path))
             continue
+        n_sub += 1
         ok, out = subprocess_replay(path)
         if ok:
             violations.append((rec, path))
@@ -609,10 +615,12 @@ def finish(
     for k in known:
         if k["id"] in known_hits:
             print("KNOWN-FINDING: property=%s %s (%d occurrence(s) this run)" % (prop, k["what"], known_hits[k["id"]]))
-    for rec, path in violations:
+    for rec, path in violations[:MAX_VIOLATION_LINES]:
         print("VIOLATION property=%s replay=%s" % (prop, path))
         print("  op=%s kind=%s detail=%s" % (rec.get("op"), rec.get("kind"), rec.get("detail")))
         print("  values=%s" % json.dumps(rec.get("values", {})))
+    if len(violations) > MAX_VIOLATION_LINES:
+        print("(+%d further distinct violation signatures, replay files written)" % (len(violations) - MAX_VIOLATION_LINES))
     # ---------------------------------------------------------------- evidence
     paths = sum(r.get("paths", 0) for r in reports)
     stats: Dict[str, float] = {}
